@@ -60,6 +60,7 @@ type input struct {
 	Mut     func(reply []byte) []byte `json:"-"` // Pending: applied to a well-formed REPLY frame for the pending call
 	Res     string                    // Pending: the caller's result receiver (struct, bytes, pbgen, nil)
 	ReplyPB []byte                    // Pending with Res pbgen: the protobuf reply body
+	Lowered bool                      // websocket: the victim session is established under a higher read limit, which is then lowered to the batch's limit
 	Bomb    bool                      // decompression bomb
 	Fed     int64                     // bytes fed
 }
@@ -388,6 +389,12 @@ func genWS(limit uint32, r *core.Rand, valid [][]byte) input {
 	case x < 10:
 		// a data frame announcing more than the read limit, payload withheld
 		n := []int64{int64(limit) + 1, int64(limit) + 4096, 1<<31 - 1, 1 << 31, 1<<62 + 5}[r.Intn(5)]
+		if limit < 8<<20 && r.Intn(3) == 0 {
+			// the session exists since before the limit was lowered (SetReadLimit at run time); one small message has been
+			// read under the new limit; the announcement is above the new limit and below the old one
+			n = []int64{int64(limit) + 1, int64(limit) + 4096, int64(limit)*2 + 100}[r.Intn(3)]
+			return input{Class: "ws-oversize-after-limit-lowered", Bytes: wsFrame(2, pl[:r.Intn(len(pl))], n), Oversz: true, Lowered: true}
+		}
 		return input{Class: "ws-oversize-announced", Bytes: wsFrame(2, pl[:r.Intn(len(pl))], n), Oversz: true}
 	case x < 12:
 		// a control frame (ping / pong / close) announcing a huge payload: control frames carry at most 125 bytes
@@ -529,10 +536,34 @@ func main() {
 		utils.VerifMaxAlloc(true)
 		var m0, m1 runtime.MemStats
 		runtime.ReadMemStats(&m0)
+		if in.Lowered {
+			erpc.SetReadLimit(32 << 20)
+		}
 		c, derr := dialVictim(srv, p, isWS)
+		if in.Lowered {
+			erpc.SetReadLimit(limit)
+		}
 		if derr != nil {
 			core.Result(core.R{ID: id, Verdict: core.Inconclusive, What: derr.Error()})
 			continue
+		}
+		if in.Lowered {
+			// one small valid message is handled under the new limit first
+			c.write(wsFrame(2, valid[0], -1))
+			if q := quiesce.Wait(quiesce.Options{Timeout: 30 * time.Second}); !q.Quiescent {
+				core.Result(core.R{ID: id, Verdict: core.Inconclusive, What: "watchdog: not quiescent after the first message under the lowered limit"})
+				c.close_()
+				quiesce.Wait(quiesce.Options{Timeout: 5 * time.Minute})
+				continue
+			}
+			if _, eof := c.recv(); eof {
+				core.Result(core.R{ID: id, Verdict: core.Inconclusive, What: "the session ended on its first small message"})
+				c.close_()
+				continue
+			}
+			core.Add("websocket_sessions_whose_limit_was_lowered_at_run_time", 1)
+			runtime.ReadMemStats(&m0)
+			utils.VerifMaxAlloc(true)
 		}
 		var pend erpc.CallCmd
 		var viols [][2]string
